@@ -27,6 +27,8 @@
 
 #include <cstring>
 #include <cassert>
+#include <limits>
+#include <stdexcept>
 
 namespace bloc
 {
@@ -128,7 +130,19 @@ MemberSETExpression * MemberSETExpression::parse(Parser& p, Context& ctx, Expres
   /* item no MUST be constant */
   if (t->code != TOKEN_INTEGER)
     throw ParseError(EXC_PARSE_BAD_MEMB_CALL_S, KEYWORDS[BTM_SET], t);
-  unsigned item_no = (unsigned)std::stoul(t->text, nullptr, 10);
+  unsigned item_no = 0;
+  try
+  {
+    /* the item number must fit the type of the index */
+    unsigned long n = std::stoul(t->text, nullptr, 10);
+    if (n > std::numeric_limits<unsigned>::max())
+      throw std::out_of_range(t->text);
+    item_no = (unsigned)n;
+  }
+  catch (std::out_of_range& e)
+  {
+    throw ParseError(EXC_PARSE_OUT_OF_INDICE, t->text.c_str(), t);
+  }
 
   try
   {
